@@ -6,7 +6,13 @@
 //! rule     = (L path (L origin...) allow_all mclear (L method...) (L header...) cache_ms)
 //!            built with the public builder: AllowList::new(ms) [.allow_all_methods() if mclear]
 //!            .add_method(m)* .add_origin(o)* [.allow_all_origins()] .add_header(h)*
-//! cfg      = (L base with_cors (L rule...) (L (L path spref)...) cache)
+//! cfg      = (L base with_cors (L rule...) (L (L path spref)...) cache [site])
+//! site     = (L (L (L relpath content)...) (L (L prefix spref)...) flags): the host serves files from a fixture
+//!            directory (fs enabled), has Prepare extensions bound to a predicate (`add_prepare_fn`: the raw request path
+//!            starts with `prefix`; earlier in the list = higher priority) and, by `flags`: 1 = a custom
+//!            `status_code_cache_filter` that caches every status; 2 = every marker handler sets its own
+//!            `access-control-allow-origin: *`; 4 = a Present extension (predicate: always) and a Post extension that log
+//!            "P" / "T"
 //! op       = (L (N 0) method target (L (L name value)...))  |  (L (N 2))  clear the response cache
 //! reply    = (L status (L (L name value)...) body (L log...))
 use crate::xval::X;
@@ -262,14 +268,66 @@ enum Op {
     Clear,
 }
 
+struct Site {
+    files: Vec<(String, Vec<u8>)>,
+    fns: Vec<(Vec<u8>, u128)>,
+    flags: u128,
+}
+fn parse_site(x: &X) -> Option<Site> {
+    let l = x.as_l()?;
+    if l.len() != 3 {
+        return None;
+    }
+    let mut files = Vec::new();
+    for f in l[0].as_l()? {
+        match f.as_l()? {
+            [X::B(p), X::B(c)] => files.push((String::from_utf8(p.clone()).ok()?, c.clone())),
+            _ => return None,
+        }
+    }
+    let mut fns = Vec::new();
+    for f in l[1].as_l()? {
+        match f.as_l()? {
+            [X::B(p), X::N(sp)] => fns.push((p.clone(), *sp)),
+            _ => return None,
+        }
+    }
+    Some(Site { files, fns, flags: l[2].as_n()? })
+}
+fn cache_everything(_: StatusCode) -> host::CacheAction {
+    host::CacheAction::Cache
+}
+fn spref_of(n: u128) -> comprash::ServerCachePreference {
+    match n {
+        0 => comprash::ServerCachePreference::None,
+        1 => comprash::ServerCachePreference::QueryMatters,
+        _ => comprash::ServerCachePreference::Full,
+    }
+}
+fn marker_response(tag: char, idx: usize, spref: u128, own_acao: bool, req: &FatRequest) -> FatResponse {
+    let body = format!("{}{}:{}", tag, idx, req.uri().path());
+    let mut resp = Response::new(Bytes::from(body.into_bytes()));
+    if own_acao {
+        resp.headers_mut().insert("access-control-allow-origin", HeaderValue::from_static("*"));
+    }
+    FatResponse::new(resp, spref_of(spref))
+}
+
 fn conn(x: &X) -> X {
     let l = match x.as_l() {
         Some(l) if l.len() == 2 => l,
         _ => return X::bad(),
     };
     let cfg = match l[0].as_l() {
-        Some(c) if c.len() == 5 => c,
+        Some(c) if c.len() == 5 || c.len() == 6 => c,
         _ => return X::bad(),
+    };
+    let site = match cfg.get(5) {
+        None => None,
+        Some(s) => match parse_site(s) {
+            Some(s) => Some(s),
+            None => return X::bad(),
+        },
     };
     let (base, with_cors, cache) = match (cfg[0].as_n(), cfg[1].as_bool(), cfg[4].as_bool()) {
         (Some(b), Some(w), Some(c)) => (b, w, c),
@@ -317,7 +375,7 @@ fn conn(x: &X) -> X {
                 _ => return X::bad(),
             },
         };
-        let (out, failed) = run_once(base, with_cors, cache, c, &handlers, &ops);
+        let (out, failed) = run_once(base, with_cors, cache, c, &handlers, site.as_ref(), &ops);
         if !failed || attempt == 2 {
             return X::L(vec![X::N(0), X::L(out)]);
         }
@@ -325,7 +383,7 @@ fn conn(x: &X) -> X {
     X::bad()
 }
 
-fn run_once(base: u128, with_cors: bool, cache: bool, cors: Cors, handlers: &[(String, u128)], ops: &[Op]) -> (Vec<X>, bool) {
+fn run_once(base: u128, with_cors: bool, cache: bool, cors: Cors, handlers: &[(String, u128)], site: Option<&Site>, ops: &[Op]) -> (Vec<X>, bool) {
     let log: Arc<Mutex<Vec<Vec<u8>>>> = Arc::new(Mutex::new(Vec::new()));
     let mut ext = if base == 0 { Extensions::new() } else { Extensions::empty() };
     if with_cors {
@@ -333,26 +391,82 @@ fn run_once(base: u128, with_cors: bool, cache: bool, cors: Cors, handlers: &[(S
     } else {
         ext.with_disallow_cors();
     }
+    let flags = site.map_or(0, |s| s.flags);
+    let own_acao = flags & 2 != 0;
     for (i, (path, spref)) in handlers.iter().enumerate() {
         let lg = Arc::clone(&log);
-        let idx = Arc::new((i, *spref));
+        let idx = Arc::new((i, *spref, own_acao));
         ext.add_prepare_single(
             path,
-            prepare!(req, _host, _path, _addr, move |lg: Arc<Mutex<Vec<Vec<u8>>>>, idx: Arc<(usize, u128)>| {
+            prepare!(req, _host, _path, _addr, move |lg: Arc<Mutex<Vec<Vec<u8>>>>, idx: Arc<(usize, u128, bool)>| {
                 lg.lock().unwrap().push(format!("h{}", idx.0).into_bytes());
-                let body = format!("h{}:{}", idx.0, req.uri().path());
-                let sp = match idx.1 {
-                    0 => comprash::ServerCachePreference::None,
-                    1 => comprash::ServerCachePreference::QueryMatters,
-                    _ => comprash::ServerCachePreference::Full,
-                };
-                FatResponse::new(Response::new(Bytes::from(body.into_bytes())), sp)
+                marker_response('h', idx.0, idx.1, idx.2, req)
             }),
         );
     }
+    let posts = Arc::new(std::sync::atomic::AtomicUsize::new(0));
+    let mut dir = None;
+    if let Some(site) = site {
+        let n = site.fns.len() as i32;
+        for (i, (prefix, spref)) in site.fns.iter().enumerate() {
+            let lg = Arc::clone(&log);
+            let idx = Arc::new((i, *spref, own_acao));
+            let pre = prefix.clone();
+            ext.add_prepare_fn(
+                Box::new(move |req, _| req.uri().path().as_bytes().starts_with(&pre)),
+                prepare!(req, _host, _path, _addr, move |lg: Arc<Mutex<Vec<Vec<u8>>>>, idx: Arc<(usize, u128, bool)>| {
+                    lg.lock().unwrap().push(format!("f{}", idx.0).into_bytes());
+                    marker_response('f', idx.0, idx.1, idx.2, req)
+                }),
+                extensions::Id::new(7000 + n - i as i32, "verif marker"),
+            );
+        }
+        if flags & 4 != 0 {
+            let lg = Arc::clone(&log);
+            ext.add_present_fn(
+                Box::new(|_, _| true),
+                present!(_data, move |lg: Arc<Mutex<Vec<Vec<u8>>>>| {
+                    lg.lock().unwrap().push(b"P".to_vec());
+                }),
+                extensions::Id::new(7000, "verif present marker"),
+            );
+            let lg = Arc::clone(&log);
+            let ps = Arc::clone(&posts);
+            ext.add_post(
+                post!(_req, _host, _pipe, _bytes, _addr, move |lg: Arc<Mutex<Vec<Vec<u8>>>>, ps: Arc<std::sync::atomic::AtomicUsize>| {
+                    lg.lock().unwrap().push(b"T".to_vec());
+                    ps.fetch_add(1, std::sync::atomic::Ordering::SeqCst);
+                }),
+                extensions::Id::new(7000, "verif post marker"),
+            );
+        }
+        // fixture directory: <dir>/public/<relpath>
+        static N: std::sync::atomic::AtomicUsize = std::sync::atomic::AtomicUsize::new(0);
+        let d = std::env::temp_dir().join(format!(
+            "kvarn-verif-c13-{}-{}",
+            std::process::id(),
+            N.fetch_add(1, std::sync::atomic::Ordering::SeqCst)
+        ));
+        let mut ok = std::fs::create_dir_all(d.join("public")).is_ok();
+        for (rel, content) in &site.files {
+            let full = d.join("public").join(rel);
+            ok = ok && full.parent().map_or(false, |p| std::fs::create_dir_all(p).is_ok()) && std::fs::write(&full, content).is_ok();
+        }
+        if !ok {
+            let _ = std::fs::remove_dir_all(&d);
+            return (vec![X::L(vec![X::N(93), X::b("fixture directory")])], true);
+        }
+        dir = Some(d);
+    }
     let mut options = host::Options::new();
-    options.disable_fs();
-    let mut host = Host::unsecure("localhost", "/nonexistent-kvarn-verif", ext, options);
+    if site.is_none() {
+        options.disable_fs();
+    }
+    if flags & 1 != 0 {
+        options.status_code_cache_filter = cache_everything;
+    }
+    let host_path = dir.as_ref().map_or("/nonexistent-kvarn-verif".to_string(), |d| d.to_string_lossy().into_owned());
+    let mut host = Host::unsecure("localhost", host_path, ext, options);
     host.limiter.disable();
     if !cache {
         host.disable_response_cache();
@@ -372,7 +486,19 @@ fn run_once(base: u128, with_cors: bool, cache: bool, cors: Cors, handlers: &[(S
                 }
                 Op::Req(m, t, hs) => {
                     log.lock().unwrap().clear();
-                    let r = client.exchange(m, t, hs).await;
+                    let before = posts.load(std::sync::atomic::Ordering::SeqCst);
+                    let mut r = client.exchange(m, t, hs).await;
+                    if flags & 4 != 0 && matches!(r, Ok(Some(_))) {
+                        // the Post extension runs after the response is written: wait for it (bounded)
+                        let t0 = std::time::Instant::now();
+                        while posts.load(std::sync::atomic::Ordering::SeqCst) == before {
+                            if t0.elapsed() > Duration::from_secs(8) {
+                                r = Err(std::io::Error::new(std::io::ErrorKind::TimedOut, "post extension not seen"));
+                                break;
+                            }
+                            tokio::time::sleep(Duration::from_millis(2)).await;
+                        }
+                    }
                     let lg: Vec<X> = log.lock().unwrap().iter().map(X::b).collect();
                     out.push(match r {
                         Err(e) => {
@@ -398,6 +524,9 @@ fn run_once(base: u128, with_cors: bool, cache: bool, cors: Cors, handlers: &[(S
         }
         out
     });
+    if let Some(d) = dir {
+        let _ = std::fs::remove_dir_all(d);
+    }
     (out, failed.load(std::sync::atomic::Ordering::SeqCst))
 }
 
